@@ -238,6 +238,7 @@ def frame(ctx, name, res, relative):
   else:
     allowed[('quantization_info', 'steps_per_second')] = None
   bad = []
+  default_qpm = U.const_value(ast.parse('constants.DEFAULT_QUARTERS_PER_MINUTE', mode='eval').body)
   for w in ws:
     if w.path == () and w.op in ('call:CopyFrom', 'call:MergeFrom'):
       continue      # the defensive copy itself (a fresh message filled from the argument), like copy.deepcopy
@@ -249,6 +250,14 @@ def frame(ctx, name, res, relative):
       continue
     if kind == 'container':
       if w.op == 'call:add':
+        call = w.node if isinstance(w.node, ast.Call) else next((c for c in ast.walk(w.stmt) if isinstance(c, ast.Call) and isinstance(c.func, ast.Attribute) and
+                                                                 c.func.attr == 'add'), None) if w.stmt is not None else None
+        # add(field=value, ...) makes the implicit default explicit in one call: the same values as the field-wise stores
+        for kw in (call.keywords if call is not None else []):
+          want = allowed.get(w.path + ('[]', kw.arg)) if kw.arg else 'opaque'
+          v = _folded(w, kw.value)
+          if want is None or want == 'opaque' or want == 'container' or v is None or v != {'zero': 0, 'four': 4, 'default_qpm': default_qpm}[want]:
+            bad.append((w, 'add(%s=%s): only the implicit defaults (4/4, the default tempo, time 0) may be made explicit' % (kw.arg or '**', norm_text(kw.value))))
         continue
       if w.op == 'del' and isinstance(w.node, ast.Subscript) and isinstance(w.node.slice, ast.Slice) and \
           U.const_value(w.node.slice.lower) == 1 and w.node.slice.upper is None:
@@ -258,10 +267,11 @@ def frame(ctx, name, res, relative):
       if not (w.op == 'store' and w.value is not None and U.const_value(w.value) == 0):
         bad.append((w, 'only time = 0 is allowed'))
     elif kind == 'four':
-      if not (w.op == 'store' and w.value is not None and U.const_value(w.value) == 4 and _on_added(w)):
+      if not (w.op == 'store' and w.value is not None and _folded(w, w.value) == 4 and _on_added(w)):
         bad.append((w, 'only the implicit 4/4 may be made explicit, on the element just added'))
     elif kind == 'default_qpm':
-      if not (w.op == 'store' and w.value is not None and norm_text(w.value) == 'constants.DEFAULT_QUARTERS_PER_MINUTE' and _on_added(w)):
+      if not (w.op == 'store' and w.value is not None and (norm_text(w.value) == 'constants.DEFAULT_QUARTERS_PER_MINUTE' or
+                                                           (default_qpm is not None and _folded(w, w.value) == default_qpm)) and _on_added(w)):
         bad.append((w, 'only the implicit default tempo may be made explicit, on the element just added'))
   for (w, why) in bad:
     ctx.ob('FRAME/' + name, w.func, w.stmt or w.node, False,
@@ -278,6 +288,15 @@ def frame(ctx, name, res, relative):
     ctx.count('frame_writes_relative', len(ws))
   else:
     ctx.count('frame_writes_absolute', len(ws))
+
+
+def _folded(w, value):
+  """The constant a stored value folds to; a local is read through the plain assignment that reaches the store."""
+  if isinstance(value, ast.Name) and w.stmt is not None:
+    d = U.reaching_def(w.func.node, value.id, w.stmt)
+    if d is not None:
+      value = d
+  return U.const_value(value)
 
 
 def _on_added(w):
@@ -472,6 +491,15 @@ def _copy_name(fi):
   return n.pop() if len(n) == 1 else None
 
 
+def _copy_source(fi, q):
+  """The name the working copy `q` was deep-copied from (`q = copy.deepcopy(src)`), or None."""
+  for st in U.walk_stmts(fi.node):
+    if isinstance(st, ast.Assign) and len(st.targets) == 1 and isinstance(st.targets[0], ast.Name) and st.targets[0].id == q and isinstance(st.value, ast.Call) and \
+        (dotted(st.value.func) or '').split('.')[-1] == 'deepcopy' and len(st.value.args) == 1 and isinstance(st.value.args[0], ast.Name):
+      return st.value.args[0].id
+  return None
+
+
 def stale_total(ctx, rule='PAIR/running-maximum'):
   """Location-independent: the extension of total_quantized_steps in _quantize_notes is a running maximum; comparing each note
   end with a snapshot of the field taken before the loop is not (see astutil.stale_running_maximum)."""
@@ -542,11 +570,39 @@ def single_explicit(ctx):
           while isinstance(t, ast.UnaryOp) and isinstance(t.op, ast.Not):
             t, pol = t.operand, not pol
           return t, pol
-        extra = [t for (t, pol) in (_strip(*tp) for tp in U.enclosing_tests(fi.node, zero[0])) if not (pol and norm_text(t) == norm_text(cont))]
+        src = _copy_source(fi, q)
+        opaque = []
+
+        def _same_truth(t):
+          # a sorted / listed view of the stored list (of the copy, or of the argument it was copied from) is non-empty exactly when
+          # the stored list is; a local holding such a view is read through its reaching definition
+          hops = 0
+          while hops < 4:
+            hops += 1
+            if isinstance(t, ast.Name):
+              d = U.reaching_def(fi.node, t.id, zero[0])
+              if d is None:
+                opaque.append(t)
+                return False
+              t = d
+              continue
+            if isinstance(t, ast.Call) and isinstance(t.func, ast.Name) and t.func.id in ('sorted', 'list', 'tuple') and t.args:
+              t = t.args[0]
+              continue
+            break
+          if isinstance(t, ast.Attribute) and t.attr == cont.attr and isinstance(t.value, ast.Name) and t.value.id in (q, src):
+            first = min(getattr(zero[0], 'lineno', 0), getattr(st, 'lineno', 0))
+            grown = [c for c in ast.walk(fi.node) if isinstance(c, ast.Call) and isinstance(c.func, ast.Attribute) and norm_text(c.func.value) == norm_text(cont) and
+                     c.func.attr in ('add', 'append', 'extend', 'pop', 'remove', 'insert', 'clear') and getattr(c, 'lineno', 0) < first and
+                     not U.exclusive(fi.node, c, zero[0])]
+            return not grown
+          return False
+        extra = [t for (t, pol) in (_strip(*tp) for tp in U.enclosing_tests(fi.node, zero[0])) if not (pol and _same_truth(t))]
         ctx.ob('FRAME/single-at-zero', fi, zero[0], not extra, 'the kept %s element is moved to time 0 whenever there is one' % cont.attr if not extra else
                'the time of the kept %s element is set to 0 only under the further condition %s: a single element at a later time stays where it is' % (
                    cont.attr, ', '.join(norm_text(t) for t in extra)),
-               construct='%s[0].time = 0 whenever %s is non-empty' % (cont.attr, cont.attr), definite=True)
+               construct='%s[0].time = 0 whenever %s is non-empty' % (cont.attr, cont.attr), definite=not opaque,
+               unknown=('the enclosing condition %s is a local whose definition is not a plain assignment' % ', '.join(norm_text(t) for t in opaque)) if (extra and opaque) else None)
   for f in ('tempos', 'time_signatures'):
     if f not in seen:
       ctx.ob('FRAME/single-at-zero', fi, fi.node, False, 'quantize_note_sequence no longer reduces %s to its first stored element' % f, construct='%s[0].time = 0; del %s[1:]' % (f, f),
